@@ -72,18 +72,32 @@ Proof.
 Qed.
 Print Assumptions C09_resolution_sound.
 
-(* THE PROPERTY: for every ordering p of the documents ds of a rule set (every name / id carried by one
-   document, no reference cycle), loading and converting p and ds ends the same way: either both raise
-   the same Sigma error (SigmaRuleNotFoundError at load time for a dangling reference), or both succeed
-   and return the same multiset of (rule, query).  Holds for every backend rendering (rplain, rcorr). *)
+(* THE PROPERTY: for every ordering p of the documents ds of a rule set in which every name / id is
+   carried by one document, loading and converting p and ds ends the same way: either both raise the
+   same Sigma error (SigmaRuleNotFoundError at load time for a dangling reference, SigmaConversionError
+   for a reference cycle), or both succeed and return the same multiset of (rule, query).
+   Holds for every backend rendering (rplain, rcorr).  same_outcome: Spec.RefOrder. *)
 Theorem C09_order_independent :
   forall Q rplain rcorr p ds,
-    Permutation p ds -> unique_keys ds -> acyclic_docs ds ->
+    Permutation p ds -> unique_keys ds ->
     same_outcome p ds (pipeline Q rplain rcorr p) (pipeline Q rplain rcorr ds).
-Proof. exact order_independent. Qed.
+Proof. exact order_independent_full. Qed.
 Print Assumptions C09_order_independent.
 
-(* the same, keyed by rule title; without the acyclicity premise whenever both orders convert *)
+(* a conversion that succeeds has met every referenced rule before its referrers: a rule set with a
+   reference cycle is rejected (SigmaConversionError) in every order *)
+Theorem C09_cycle_rejected :
+  forall Q rplain rcorr ds rr, resolve_all ds = Some rr ->
+    (forall c, pipeline Q rplain rcorr ds = Ok c -> acyclic rr) /\
+    ((exists c, pipeline Q rplain rcorr ds = Ok c) \/ pipeline Q rplain rcorr ds = SigmaErr E_Conversion).
+Proof.
+  intros Q rplain rcorr ds rr Hr. split.
+  - intros c Hc. exact (pipeline_Ok_acyclic Q rplain rcorr ds c rr Hc Hr).
+  - exact (pipeline_cases Q rplain rcorr ds rr Hr).
+Qed.
+Print Assumptions C09_cycle_rejected.
+
+(* the same, keyed by rule title *)
 Theorem C09_order_independent_by_title :
   forall Q rplain rcorr p ds c' c,
     Permutation p ds -> unique_keys ds ->
@@ -92,10 +106,15 @@ Theorem C09_order_independent_by_title :
 Proof. exact order_independent_by_title. Qed.
 Print Assumptions C09_order_independent_by_title.
 
-(* the document-level acyclicity premise implies the position-level one used by C09_topo *)
+(* acyclicity on positions (C09_topo) and on documents (reference strings against names / ids) agree *)
 Theorem C09_acyclic_docs_index :
-  forall ds rr, resolve_all ds = Some rr -> acyclic_docs ds -> acyclic rr.
-Proof. exact acyclic_docs_index. Qed.
+  forall ds rr, resolve_all ds = Some rr ->
+    (acyclic_docs ds -> acyclic rr) /\ (unique_keys ds -> acyclic rr -> acyclic_docs ds).
+Proof.
+  intros ds rr Hr. split.
+  - exact (acyclic_docs_index ds rr Hr).
+  - intros Hu. exact (acyclic_index_docs ds rr Hr Hu).
+Qed.
 Print Assumptions C09_acyclic_docs_index.
 
 (* non-vacuity: the premises hold for the five-document witness set of D22 *)
